@@ -10,7 +10,7 @@ X+S: the harness c09 renders fixtures through the real Configurator / template e
 import concurrent.futures, json, os, re
 from . import common as C
 
-ONLY = ["Base", "Determ", "gen", "Properties/C09.v"]
+ONLY = ["Base", "Determ", "gen/MapRanges.v", "Properties/C09.v"]
 GEN = os.path.join(C.COQ, "gen", "MapRanges.v")
 PROCS = 3
 
@@ -117,6 +117,40 @@ def run_processes(binary, args, tag):
     return [C.read_jsonl(o) for o in outs]
 
 
+RE_APIKEY_HDR = re.compile(r'^\s*map \$apikey_auth_token \$apikey_auth_client_name_\S+ \{$')
+RE_APIKEY_PARAM = re.compile(r'^\s*"[0-9a-f]{64}" "[^"]*";$')
+RE_LRZ_HDR = re.compile(r'^\s*map \$jwt_\S+ \$rl_\S+_group_\S+ \{$')
+
+
+def cross_process_diff(fa, fb):
+    """first differing line between the first renderings of two processes (same attribution rules as the harness)"""
+    for name in sorted(set(fa) | set(fb)):
+        a, b = fa.get(name, ""), fb.get(name, "")
+        if a == b:
+            continue
+        la, lb = a.split("\n"), b.split("\n")
+        n = 0
+        while n < len(la) and n < len(lb) and la[n] == lb[n]:
+            n += 1
+        x, y = (la[n] if n < len(la) else ""), (lb[n] if n < len(lb) else "")
+        block = ""
+        for i in range(n - 1, -1, -1):
+            if n < len(la) and la[i].strip().endswith("{") and len(la[i]) - len(la[i].lstrip()) < len(la[n]) - len(la[n].lstrip()):
+                block = la[i].strip()
+                break
+        same = sorted(la) == sorted(lb)
+        site = "unattributed"
+        if same:
+            if RE_APIKEY_HDR.match(x) and RE_APIKEY_HDR.match(y):
+                site = "virtualServerConfigurator.GenerateVirtualServerConfig#0"
+            elif RE_APIKEY_HDR.match(block) and RE_APIKEY_PARAM.match(x) and RE_APIKEY_PARAM.match(y):
+                site = "generateAPIKeyClients#0"
+            elif RE_LRZ_HDR.match(x) and RE_LRZ_HDR.match(y):
+                site = "virtualServerConfigurator.generatePolicies#0"
+        return {"round": 0, "file": name, "line": n + 1, "a": x, "b": y, "block": block, "same_multiset": same, "site": site, "between_processes": True}
+    return None
+
+
 def merge(per_proc):
     """one case per id; renderings of the processes concatenated (the first rendering of a later
     process legitimately reports changed=true on its fresh directory: masked), unit outputs united"""
@@ -139,6 +173,8 @@ def merge(per_proc):
                 o["renderings"] = (o.get("renderings") or []) + rs
                 if vo.get("diff") and not o.get("diff"):
                     o["diff"] = vo["diff"]
+                if not o.get("diff") and vo.get("first") != o.get("first"):
+                    o["diff"] = cross_process_diff(o.get("first") or {}, vo.get("first") or {})
             o["distinct"] = len({json.dumps(r["files"]) for r in o.get("renderings") or []})
         else:
             seen = {json.dumps(x): i for i, x in enumerate(o.get("outs") or [])}
@@ -285,7 +321,7 @@ def judge(run, cases, res, status, verbose=False):
 
 
 def check(run):
-    n = 30 if run.tier == "quick" else 600
+    n = 110 if run.tier == "quick" else 1200
     sites, nondet = regenerate(run)
     status = inventory_obligations(run, sites, nondet)
     run.proof_obligations()
